@@ -20,15 +20,19 @@ theorem keyLe_antisymm {a b : Option Nat} (h1 : keyLe a b = true) (h2 : keyLe b 
 theorem keyLe_none_right {a : Option Nat} (h : keyLe a none = true) : a = none := by
   cases a <;> simp_all [keyLe]
 
-theorem le_refl (a : Msg) : le a a = true := keyLe_refl _
-theorem le_total (a b : Msg) : le a b = true ∨ le b a = true := keyLe_total _ _
-theorem le_trans {a b c : Msg} (h1 : le a b = true) (h2 : le b c = true) : le a c = true := keyLe_trans h1 h2
+/-! Everything below is generic in the representation of a message (`Carrier`). -/
+namespace G
+variable {μ : Type} (C : Carrier μ)
+
+theorem le_refl (a : μ) : le C a a = true := keyLe_refl _
+theorem le_total (a b : μ) : le C a b = true ∨ le C b a = true := keyLe_total _ _
+theorem le_trans {a b c : μ} (h1 : le C a b = true) (h2 : le C b c = true) : le C a c = true := keyLe_trans h1 h2
 
 /-! ### insertion sort: permutation, sortedness, stability, uniqueness -/
 
-def Sorted (l : List Msg) : Prop := l.Pairwise (fun a b => le a b = true)
+def Sorted (l : List μ) : Prop := l.Pairwise (fun a b => le C a b = true)
 
-theorem insertSorted_perm (x : Msg) (l : List Msg) : (insertSorted x l).Perm (x :: l) := by
+theorem insertSorted_perm (x : μ) (l : List μ) : (insertSorted C x l).Perm (x :: l) := by
   induction l with
   | nil => simp [insertSorted]
   | cons y ys ih =>
@@ -37,15 +41,15 @@ theorem insertSorted_perm (x : Msg) (l : List Msg) : (insertSorted x l).Perm (x 
     · exact List.Perm.refl _
     · exact (List.Perm.cons y ih).trans (List.Perm.swap x y ys)
 
-theorem sortStable_perm (l : List Msg) : (sortStable l).Perm l := by
+theorem sortStable_perm (l : List μ) : (sortStable C l).Perm l := by
   induction l with
   | nil => simp [sortStable]
   | cons x xs ih =>
-    have : sortStable (x :: xs) = insertSorted x (sortStable xs) := rfl
+    have : sortStable C (x :: xs) = insertSorted C x (sortStable C xs) := rfl
     rw [this]
-    exact (insertSorted_perm x _).trans (List.Perm.cons x ih)
+    exact (insertSorted_perm C x _).trans (List.Perm.cons x ih)
 
-theorem insertSorted_sorted (x : Msg) (l : List Msg) (h : Sorted l) : Sorted (insertSorted x l) := by
+theorem insertSorted_sorted (x : μ) (l : List μ) (h : Sorted C l) : Sorted C (insertSorted C x l) := by
   induction l with
   | nil => simp [insertSorted, Sorted]
   | cons y ys ih =>
@@ -57,29 +61,29 @@ theorem insertSorted_sorted (x : Msg) (l : List Msg) (h : Sorted l) : Sorted (in
       intro z hz
       rcases List.mem_cons.mp hz with rfl | hz
       · exact hxy
-      · exact le_trans hxy (hy.1 z hz)
+      · exact le_trans C hxy (hy.1 z hz)
     · rename_i hxy
-      have hyx : le y x = true := by
-        rcases le_total x y with h1 | h1
+      have hyx : le C y x = true := by
+        rcases le_total C x y with h1 | h1
         · exact absurd h1 hxy
         · exact h1
       refine List.pairwise_cons.mpr ⟨?_, ih hy.2⟩
       intro z hz
-      have := (insertSorted_perm x ys).mem_iff.mp hz
+      have := (insertSorted_perm C x ys).mem_iff.mp hz
       rcases List.mem_cons.mp this with rfl | hz
       · exact hyx
       · exact hy.1 z hz
 
-theorem sortStable_sorted (l : List Msg) : Sorted (sortStable l) := by
+theorem sortStable_sorted (l : List μ) : Sorted C (sortStable C l) := by
   induction l with
   | nil => simp [sortStable, Sorted]
-  | cons x xs ih => exact insertSorted_sorted x _ ih
+  | cons x xs ih => exact insertSorted_sorted C x _ ih
 
 /-- the messages with key `k`, in the order in which they stand in `l` -/
-def withKey (k : Option Nat) (l : List Msg) : List Msg := l.filter (fun m => decide (key m = k))
+def withKey (k : Option Nat) (l : List μ) : List μ := l.filter (fun m => decide ((C.key m) = k))
 
-theorem insertSorted_withKey (k : Option Nat) (x : Msg) (l : List Msg) :
-    withKey k (insertSorted x l) = withKey k (x :: l) := by
+theorem insertSorted_withKey (k : Option Nat) (x : μ) (l : List μ) :
+    withKey C k (insertSorted C x l) = withKey C k (x :: l) := by
   induction l with
   | nil => simp [insertSorted]
   | cons y ys ih =>
@@ -87,89 +91,89 @@ theorem insertSorted_withKey (k : Option Nat) (x : Msg) (l : List Msg) :
     split
     · rfl
     · rename_i hxy
-      have hne : ¬ (key x = k ∧ key y = k) := by
+      have hne : ¬ ((C.key x) = k ∧ (C.key y) = k) := by
         intro ⟨h1, h2⟩
         apply hxy
         simp [le, h1, h2, keyLe_refl]
       simp only [withKey, List.filter_cons] at ih ⊢
       rw [ih]
-      by_cases h1 : key x = k <;> by_cases h2 : key y = k <;> simp_all
+      by_cases h1 : (C.key x) = k <;> by_cases h2 : (C.key y) = k <;> simp_all
 
 /-- stability: messages with equal keys keep their relative order -/
-theorem sortStable_withKey (k : Option Nat) (l : List Msg) : withKey k (sortStable l) = withKey k l := by
+theorem sortStable_withKey (k : Option Nat) (l : List μ) : withKey C k (sortStable C l) = withKey C k l := by
   induction l with
   | nil => simp [sortStable]
   | cons x xs ih =>
-    have : sortStable (x :: xs) = insertSorted x (sortStable xs) := rfl
+    have : sortStable C (x :: xs) = insertSorted C x (sortStable C xs) := rfl
     rw [this, insertSorted_withKey]
     simp only [withKey, List.filter_cons] at ih ⊢
     rw [ih]
 
-/-- a sorted list is determined by its per-key subsequences: two sorted lists that agree on `withKey k` for
+/-- a sorted list is determined by its per-key subsequences: two sorted lists that agree on `withKey C k` for
 every `k` are equal. Hence the stable sorted permutation of a list is unique, and ANY stable sorting
-algorithm (`slices.SortStableFunc`) returns `sortStable l`. -/
-theorem sorted_ext : ∀ (l1 l2 : List Msg), Sorted l1 → Sorted l2 → (∀ k, withKey k l1 = withKey k l2) → l1 = l2
+algorithm (`slices.SortStableFunc`) returns `sortStable C l`. -/
+theorem sorted_ext : ∀ (l1 l2 : List μ), Sorted C l1 → Sorted C l2 → (∀ k, withKey C k l1 = withKey C k l2) → l1 = l2
   | [], [], _, _, _ => rfl
   | [], b :: t2, _, _, h => by
-    have := h (key b); simp [withKey] at this
+    have := h ((C.key b)); simp [withKey] at this
   | a :: t1, [], _, _, h => by
-    have := h (key a); simp [withKey] at this
+    have := h ((C.key a)); simp [withKey] at this
   | a :: t1, b :: t2, s1, s2, h => by
     have ha := List.pairwise_cons.mp s1
     have hb := List.pairwise_cons.mp s2
     -- b occurs in a :: t1 and a occurs in b :: t2
     have hb_mem : b ∈ a :: t1 := by
-      have : b ∈ withKey (key b) (a :: t1) := by rw [h]; simp [withKey]
+      have : b ∈ withKey C ((C.key b)) (a :: t1) := by rw [h]; simp [withKey]
       exact (List.mem_filter.mp this).1
     have ha_mem : a ∈ b :: t2 := by
-      have : a ∈ withKey (key a) (b :: t2) := by rw [← h]; simp [withKey]
+      have : a ∈ withKey C ((C.key a)) (b :: t2) := by rw [← h]; simp [withKey]
       exact (List.mem_filter.mp this).1
-    have hab : le a b = true := by
+    have hab : le C a b = true := by
       rcases List.mem_cons.mp hb_mem with rfl | hm
-      · exact le_refl _
+      · exact le_refl C _
       · exact ha.1 b hm
-    have hba : le b a = true := by
+    have hba : le C b a = true := by
       rcases List.mem_cons.mp ha_mem with rfl | hm
-      · exact le_refl _
+      · exact le_refl C _
       · exact hb.1 a hm
-    have hk : key a = key b := keyLe_antisymm hab hba
-    have h0 := h (key a)
+    have hk : (C.key a) = (C.key b) := keyLe_antisymm hab hba
+    have h0 := h ((C.key a))
     simp only [withKey, List.filter_cons, hk, decide_true, if_true] at h0
     have hab' : a = b := (List.cons.inj h0).1
     subst hab'
-    have htail : ∀ k, withKey k t1 = withKey k t2 := by
+    have htail : ∀ k, withKey C k t1 = withKey C k t2 := by
       intro k
       have hk' := h k
       simp only [withKey, List.filter_cons] at hk' ⊢
-      by_cases hka : key a = k
+      by_cases hka : (C.key a) = k
       · simp only [hka, decide_true, if_true] at hk'
         exact (List.cons.inj hk').2
       · simp only [hka, decide_false] at hk'
         exact hk'
     rw [sorted_ext t1 t2 ha.2 hb.2 htail]
 
-theorem sortStable_unique (l l' : List Msg) (hs : Sorted l') (hst : ∀ k, withKey k l' = withKey k l) :
-    l' = sortStable l :=
-  sorted_ext l' (sortStable l) hs (sortStable_sorted l) (fun k => by rw [hst k, sortStable_withKey])
+theorem sortStable_unique (l l' : List μ) (hs : Sorted C l') (hst : ∀ k, withKey C k l' = withKey C k l) :
+    l' = sortStable C l :=
+  sorted_ext C l' (sortStable C l) hs (sortStable_sorted C l) (fun k => by rw [hst k, sortStable_withKey])
 
 /-! ### the build fold -/
 
 
 /-- what a file keeps of a message list, dropped numbers included (`keepLast` = the same without dropped numbers) -/
-def survivors (T : FileType) : List Msg → List Msg
+def survivors (T : FileType) : List μ → List μ
   | [] => []
   | m :: rest =>
-    if isDropped T m.num then survivors T rest
-    else if isSingle T m.num && rest.any (fun x => x.num == m.num) then survivors T rest
+    if isDropped T (C.num m) then survivors T rest
+    else if isSingle T (C.num m) && rest.any (fun x => (C.num x) == (C.num m)) then survivors T rest
     else m :: survivors T rest
 
 theorem isSingle_of_isDropped {T : FileType} {n : Nat} (h : isDropped T n = true) : isSingle T n = false := by
   unfold isDropped at h; unfold isSingle
   split <;> simp_all
 
-theorem foldl_addN (T : FileType) (msgs : List Msg) : ∀ acc : File,
-    msgs.foldl (addN T) acc =
-      acc.filter (fun a => !(isSingle T a.num && msgs.any (fun x => x.num == a.num))) ++ survivors T msgs := by
+theorem foldl_addN (T : FileType) (msgs : List μ) : ∀ acc : List μ,
+    msgs.foldl (addN C T) acc =
+      acc.filter (fun a => !(isSingle T (C.num a) && msgs.any (fun x => (C.num x) == (C.num a)))) ++ survivors C T msgs := by
   induction msgs with
   | nil =>
     intro acc
@@ -178,29 +182,29 @@ theorem foldl_addN (T : FileType) (msgs : List Msg) : ∀ acc : File,
   | cons m rest ih =>
     intro acc
     rw [List.foldl_cons, ih]
-    by_cases hd : isDropped T m.num = true
+    by_cases hd : isDropped T (C.num m) = true
     · have hs := isSingle_of_isDropped hd
       simp only [addN, hd, if_true, survivors]
       congr 1
       apply List.filter_congr
       intro a _
-      by_cases ham : m.num = a.num
+      by_cases ham : (C.num m) = (C.num a)
       · simp [← ham, hs]
-      · have hb : (m.num == a.num) = false := beq_eq_false_iff_ne.mpr ham
+      · have hb : ((C.num m) == (C.num a)) = false := beq_eq_false_iff_ne.mpr ham
         simp [hb]
-    · by_cases hs : isSingle T m.num = true
+    · by_cases hs : isSingle T (C.num m) = true
       · simp only [addN, hd, hs, survivors, Bool.false_eq_true, if_false, if_true, List.filter_append, List.filter_filter, Bool.true_and]
         rw [List.append_assoc]
         congr 1
         · apply List.filter_congr
           intro a _
-          by_cases ham : m.num = a.num
-          · have : a.num = m.num := ham.symm
+          by_cases ham : (C.num m) = (C.num a)
+          · have : (C.num a) = (C.num m) := ham.symm
             simp [this, hs]
-          · have hb : (m.num == a.num) = false := beq_eq_false_iff_ne.mpr ham
-            have hb' : (a.num != m.num) = true := by simp [bne_iff_ne]; exact fun h => ham h.symm
+          · have hb : ((C.num m) == (C.num a)) = false := beq_eq_false_iff_ne.mpr ham
+            have hb' : ((C.num a) != (C.num m)) = true := by simp [bne_iff_ne]; exact fun h => ham h.symm
             simp [hb, hb']
-        · by_cases hany : rest.any (fun x => x.num == m.num) = true
+        · by_cases hany : rest.any (fun x => (C.num x) == (C.num m)) = true
           · simp [hany, hs]
           · simp [hany, hs]
       · simp only [addN, hd, hs, survivors, Bool.false_eq_true, if_false, List.filter_append, Bool.false_and]
@@ -208,9 +212,9 @@ theorem foldl_addN (T : FileType) (msgs : List Msg) : ∀ acc : File,
         congr 1
         · apply List.filter_congr
           intro a _
-          by_cases ham : m.num = a.num
+          by_cases ham : (C.num m) = (C.num a)
           · simp [← ham, hs]
-          · have hb : (m.num == a.num) = false := beq_eq_false_iff_ne.mpr ham
+          · have hb : ((C.num m) == (C.num a)) = false := beq_eq_false_iff_ne.mpr ham
             simp [hb]
         · simp [hs]
 
@@ -230,7 +234,7 @@ def prefixOK : List Slot → Bool
 /-- what the theorems need of a (regenerated) table; decidable, re-checked by the kernel on every run -/
 def TableOK (T : FileType) : Prop :=
   (T.slots.map (·.num)).Nodup ∧ T.slots.all (fun s => s.kind != .dropped) = true ∧ T.dropped = [] ∧
-  prefixOK T.slots = true ∧ 3 ≤ T.sortFrom ∧ T.slots.all (fun s => s.kind == s.decl) = true
+  prefixOK T.slots = true ∧ 3 ≤ T.sortFrom ∧ T.slots.all (fun s => s.kind == s.decl) = true ∧ T.declOnly = []
 
 instance (T : FileType) : Decidable (TableOK T) := by unfold TableOK; infer_instance
 
@@ -239,7 +243,7 @@ theorem slotOf_mem {T : FileType} {n : Nat} {s : Slot} (h : slotOf T n = some s)
   exact ⟨List.mem_of_find?_eq_some h, by simpa using List.find?_some h⟩
 
 theorem noDrop {T : FileType} (h : TableOK T) (n : Nat) : isDropped T n = false := by
-  obtain ⟨_, hk, hd, _, _, _⟩ := h
+  obtain ⟨_, hk, hd, _, _, _, _⟩ := h
   unfold isDropped
   split
   · rename_i s hs
@@ -247,13 +251,13 @@ theorem noDrop {T : FileType} (h : TableOK T) (n : Nat) : isDropped T n = false 
     simpa using this
   · simp [hd]
 
-theorem survivors_eq_keepLast {T : FileType} (h : TableOK T) (l : List Msg) : survivors T l = keepLast T l := by
+theorem survivors_eq_keepLast {T : FileType} (h : TableOK T) (l : List μ) : survivors C T l = keepLast C T l := by
   induction l with
   | nil => rfl
   | cons m rest ih => simp only [survivors, keepLast, noDrop h, ih, Bool.false_eq_true, if_false]
 
-theorem build_eq_survivors (T : FileType) (msgs : List Msg) : build T msgs = survivors T (msgs.map (normT T)) := by
-  have h := foldl_addN T (msgs.map (normT T)) []
+theorem build_eq_survivors (T : FileType) (msgs : List μ) : build C T msgs = survivors C T (msgs.map (C.norm T)) := by
+  have h := foldl_addN C T (msgs.map (C.norm T)) []
   rw [List.foldl_map] at h
   simp only [List.filter_nil, List.nil_append] at h
   exact h
@@ -262,20 +266,20 @@ theorem isSingleDecl_eq {T : FileType} (h : TableOK T) (n : Nat) : isSingleDecl 
   unfold isSingleDecl isSingle
   split
   · rename_i s hs
-    have := List.all_eq_true.mp h.2.2.2.2.2 s (slotOf_mem hs).1
+    have := List.all_eq_true.mp h.2.2.2.2.2.1 s (slotOf_mem hs).1
     rw [← (beq_iff_eq.mp this)]
   · rfl
 
-theorem keepLastDecl_eq {T : FileType} (h : TableOK T) (l : List Msg) : keepLastDecl T l = keepLast T l := by
+theorem keepLastDecl_eq {T : FileType} (h : TableOK T) (l : List μ) : keepLastDecl C T l = keepLast C T l := by
   induction l with
   | nil => rfl
   | cons m rest ih => simp only [keepLastDecl, keepLast, isSingleDecl_eq h, ih]
 
 /-- the file keeps exactly: every message (normalised by its typed struct), except that of the messages of a
 single-valued slot only the last survives — in arrival order -/
-theorem build_eq_keepLast {T : FileType} (h : TableOK T) (msgs : List Msg) :
-    build T msgs = keepLast T (msgs.map (normT T)) := by
-  rw [build_eq_survivors, survivors_eq_keepLast h]
+theorem build_eq_keepLast {T : FileType} (h : TableOK T) (msgs : List μ) :
+    build C T msgs = keepLast C T (msgs.map (C.norm T)) := by
+  rw [build_eq_survivors, survivors_eq_keepLast C h]
 
 
 end
@@ -295,39 +299,39 @@ theorem slotOf_isNone (T : FileType) (n : Nat) : (slotOf T n).isNone = !inSlots 
     cases h : (s.num == n) <;> simp [ih]
 
 /-- splitting a list by the number of a duplicate-free slot list, plus the rest, is a permutation of it -/
-theorem partition_perm : ∀ (ss : List Slot), (ss.map (·.num)).Nodup → ∀ f : List Msg,
-    ((ss.map (fun s => f.filter (fun m => m.num == s.num))).flatten ++ f.filter (fun m => !inSlots ss m.num)).Perm f
+theorem partition_perm : ∀ (ss : List Slot), (ss.map (·.num)).Nodup → ∀ f : List μ,
+    ((ss.map (fun s => f.filter (fun m => (C.num m) == s.num))).flatten ++ f.filter (fun m => !inSlots ss (C.num m))).Perm f
   | [], _, f => by
     simp only [List.map_nil, List.flatten_nil, List.nil_append, inSlots, List.any_nil, Bool.not_false]
     rw [List.filter_eq_self.mpr (fun _ _ => rfl)]
   | s :: ss, hnd, f => by
     have hnd' : s.num ∉ ss.map (·.num) ∧ (ss.map (·.num)).Nodup := List.nodup_cons.mp hnd
-    let g := f.filter (fun m => m.num != s.num)
+    let g := f.filter (fun m => (C.num m) != s.num)
     have ih := partition_perm ss hnd'.2 g
-    have e1 : ss.map (fun s' => f.filter (fun m => m.num == s'.num)) = ss.map (fun s' => g.filter (fun m => m.num == s'.num)) := by
+    have e1 : ss.map (fun s' => f.filter (fun m => (C.num m) == s'.num)) = ss.map (fun s' => g.filter (fun m => (C.num m) == s'.num)) := by
       apply List.map_congr_left
       intro s' hs'
       simp only [g, List.filter_filter]
       apply List.filter_congr
       intro m _
-      by_cases h : m.num = s'.num
-      · have : m.num ≠ s.num := by
+      by_cases h : (C.num m) = s'.num
+      · have : (C.num m) ≠ s.num := by
           intro h2; apply hnd'.1; rw [← h2, h]; exact List.mem_map_of_mem hs'
         simp [h, bne_iff_ne]; rw [← h]; exact this
       · simp [h]
-    have e2 : f.filter (fun m => !inSlots (s :: ss) m.num) = g.filter (fun m => !inSlots ss m.num) := by
+    have e2 : f.filter (fun m => !inSlots (s :: ss) (C.num m)) = g.filter (fun m => !inSlots ss (C.num m)) := by
       simp only [g, List.filter_filter, inSlots, List.any_cons]
       apply List.filter_congr
       intro m _
-      by_cases h : s.num = m.num
+      by_cases h : s.num = (C.num m)
       · simp [h]
-      · have : (s.num == m.num) = false := beq_eq_false_iff_ne.mpr h
-        have h2 : (m.num != s.num) = true := by simp [bne_iff_ne]; exact fun e => h e.symm
+      · have : (s.num == (C.num m)) = false := beq_eq_false_iff_ne.mpr h
+        have h2 : ((C.num m) != s.num) = true := by simp [bne_iff_ne]; exact fun e => h e.symm
         simp [this, h2]
     simp only [List.map_cons, List.flatten_cons, List.append_assoc]
     rw [e1, e2]
     refine (List.Perm.append_left _ ih).trans ?_
-    have := List.filter_append_perm (fun m : Msg => m.num == s.num) f
+    have := List.filter_append_perm (fun m : μ => (C.num m) == s.num) f
     refine List.Perm.trans ?_ this
     apply List.Perm.append_left
     simp only [g]
@@ -343,11 +347,8 @@ section
 open Generated
 
 
-theorem normT_num (T : FileType) (m : Msg) : (normT T m).num = m.num := by
-  unfold normT; split <;> rfl
-
-theorem keepLast_any (T : FileType) (n : Nat) (l : List Msg) :
-    (keepLast T l).any (fun m => m.num == n) = l.any (fun m => m.num == n) := by
+theorem keepLast_any (T : FileType) (n : Nat) (l : List μ) :
+    (keepLast C T l).any (fun m => (C.num m) == n) = l.any (fun m => (C.num m) == n) := by
   induction l with
   | nil => rfl
   | cons m rest ih =>
@@ -356,13 +357,13 @@ theorem keepLast_any (T : FileType) (n : Nat) (l : List Msg) :
     · rename_i h
       simp only [Bool.and_eq_true] at h
       rw [ih, List.any_cons]
-      by_cases hn : m.num = n
+      by_cases hn : (C.num m) = n
       · subst hn; simp [h.2]
       · simp [hn]
     · simp [List.any_cons, ih]
 
-theorem keepLast_single_le_one (T : FileType) (n : Nat) (hs : isSingle T n = true) (l : List Msg) :
-    ((keepLast T l).filter (fun m => m.num == n)).length ≤ 1 := by
+theorem keepLast_single_le_one (T : FileType) (n : Nat) (hs : isSingle T n = true) (l : List μ) :
+    ((keepLast C T l).filter (fun m => (C.num m) == n)).length ≤ 1 := by
   induction l with
   | nil => simp [keepLast]
   | cons m rest ih =>
@@ -370,42 +371,42 @@ theorem keepLast_single_le_one (T : FileType) (n : Nat) (hs : isSingle T n = tru
     split
     · exact ih
     · rename_i h
-      by_cases hn : m.num = n
+      by_cases hn : (C.num m) = n
       · subst hn
-        have hnone : rest.any (fun x => x.num == m.num) = false := by
+        have hnone : rest.any (fun x => (C.num x) == (C.num m)) = false := by
           simpa [hs] using h
-        have : (keepLast T rest).filter (fun x => x.num == m.num) = [] := by
+        have : (keepLast C T rest).filter (fun x => (C.num x) == (C.num m)) = [] := by
           rw [List.filter_eq_nil_iff]
           intro a ha
-          have h2 := keepLast_any T m.num rest
+          have h2 := keepLast_any C T (C.num m) rest
           rw [hnone] at h2
           have := List.any_eq_false.mp h2 a ha
           simpa using this
         simp [this]
-      · have : (m.num == n) = false := beq_eq_false_iff_ne.mpr hn
+      · have : ((C.num m) == n) = false := beq_eq_false_iff_ne.mpr hn
         simp [this]; exact ih
 
-theorem slotMsgs_of_not_value (T : FileType) (f : File) (s : Slot) (h : s.kind ≠ .value) :
-    slotMsgs T f s = f.filter (fun m => m.num == s.num) := by
+theorem slotMsgs_of_not_value (T : FileType) (f : List μ) (s : Slot) (h : s.kind ≠ .value) :
+    slotMsgs C T f s = f.filter (fun m => (C.num m) == s.num) := by
   unfold slotMsgs
   have : (s.kind == Kind.value) = false := by cases hk : s.kind <;> simp_all
   simp [this]
 
-theorem slotMsgs_of_any (T : FileType) (f : File) (s : Slot) (h : f.any (fun m => m.num == s.num) = true) :
-    slotMsgs T f s = f.filter (fun m => m.num == s.num) := by
+theorem slotMsgs_of_any (T : FileType) (f : List μ) (s : Slot) (h : f.any (fun m => (C.num m) == s.num) = true) :
+    slotMsgs C T f s = f.filter (fun m => (C.num m) == s.num) := by
   unfold slotMsgs
-  have : (f.filter (fun m => m.num == s.num)).isEmpty = false := by
+  have : (f.filter (fun m => (C.num m) == s.num)).isEmpty = false := by
     obtain ⟨a, ha, hp⟩ := List.any_eq_true.mp h
-    have : a ∈ f.filter (fun m => m.num == s.num) := List.mem_filter.mpr ⟨ha, hp⟩
-    cases hl : f.filter (fun m => m.num == s.num) with
+    have : a ∈ f.filter (fun m => (C.num m) == s.num) := List.mem_filter.mpr ⟨ha, hp⟩
+    cases hl : f.filter (fun m => (C.num m) == s.num) with
     | nil => rw [hl] at this; cases this
     | cons _ _ => rfl
   simp [this]
 
-theorem slotMsgs_default (T : FileType) (f : File) (s : Slot) (hk : s.kind = .value)
-    (h : f.any (fun m => m.num == s.num) = false) :
-    slotMsgs T f s = [defaultMsg T s.num] ∧ f.filter (fun m => m.num == s.num) = [] := by
-  have hnil : f.filter (fun m => m.num == s.num) = [] := by
+theorem slotMsgs_default (T : FileType) (f : List μ) (s : Slot) (hk : s.kind = .value)
+    (h : f.any (fun m => (C.num m) == s.num) = false) :
+    slotMsgs C T f s = [C.dflt T s.num] ∧ f.filter (fun m => (C.num m) == s.num) = [] := by
+  have hnil : f.filter (fun m => (C.num m) == s.num) = [] := by
     rw [List.filter_eq_nil_iff]
     intro a ha
     have := List.any_eq_false.mp h a ha
@@ -418,7 +419,7 @@ theorem slotMsgs_default (T : FileType) (f : File) (s : Slot) (hk : s.kind = .va
 theorem tableOK_slots {T : FileType} (h : TableOK T) : ∃ s0 s1 s2 rest, T.slots = s0 :: s1 :: s2 :: rest ∧
     s0.num = mesgNumFileId ∧ s0.kind = .value ∧ s1.num = mesgNumDeveloperDataId ∧ s1.kind = .list ∧
     s2.num = mesgNumFieldDescription ∧ s2.kind = .list ∧ ∀ s ∈ rest, s.kind ≠ .value := by
-  obtain ⟨_, _, _, hp, _, _⟩ := h
+  obtain ⟨_, _, _, hp, _, _, _⟩ := h
   match hs : T.slots with
   | [] => rw [hs] at hp; simp [prefixOK] at hp
   | [_] => rw [hs] at hp; simp [prefixOK] at hp
@@ -430,17 +431,17 @@ theorem tableOK_slots {T : FileType} (h : TableOK T) : ∃ s0 s1 s2 rest, T.slot
     exact ⟨s0, s1, s2, rest, rfl, a, b, c, d, e, g, r⟩
 
 /-- the emission is a permutation of the stored messages, plus the zero-valued file_id if none was added -/
-theorem emission_perm {T : FileType} (h : TableOK T) (f : File) :
-    (emission T f).Perm
-      ((if f.any (fun m => m.num == mesgNumFileId) then [] else [defaultMsg T mesgNumFileId]) ++ f) := by
+theorem emission_perm {T : FileType} (h : TableOK T) (f : List μ) :
+    (emission C T f).Perm
+      ((if f.any (fun m => (C.num m) == mesgNumFileId) then [] else [C.dflt T mesgNumFileId]) ++ f) := by
   obtain ⟨s0, s1, s2, rest, hsl, h0n, h0k, _, h1k, _, h2k, hrest⟩ := tableOK_slots h
   have hnd := h.1
-  have hun : unrelated T f = f.filter (fun m => !inSlots T.slots m.num) := by
+  have hun : unrelated C T f = f.filter (fun m => !inSlots T.slots (C.num m)) := by
     unfold unrelated
     apply List.filter_congr
     intro m _
-    exact slotOf_isNone T m.num
-  have hothers : ∀ s ∈ s1 :: s2 :: rest, slotMsgs T f s = f.filter (fun m => m.num == s.num) := by
+    exact slotOf_isNone T (C.num m)
+  have hothers : ∀ s ∈ s1 :: s2 :: rest, slotMsgs C T f s = f.filter (fun m => (C.num m) == s.num) := by
     intro s hs
     apply slotMsgs_of_not_value
     rcases List.mem_cons.mp hs with rfl | hs
@@ -448,30 +449,30 @@ theorem emission_perm {T : FileType} (h : TableOK T) (f : File) :
     · rcases List.mem_cons.mp hs with rfl | hs
       · rw [h2k]; decide
       · exact hrest s hs
-  have hpart := partition_perm T.slots hnd f
+  have hpart := partition_perm C T.slots hnd f
   unfold emission groups
   rw [List.flatten_append, hun]
   simp only [List.flatten_cons, List.flatten_nil, List.append_nil]
   rw [hsl] at hpart ⊢
   rw [List.map_cons, List.map_congr_left hothers]
   rw [List.map_cons] at hpart
-  by_cases hany : f.any (fun m => m.num == mesgNumFileId) = true
+  by_cases hany : f.any (fun m => (C.num m) == mesgNumFileId) = true
   · rw [if_pos hany, List.nil_append]
-    rw [slotMsgs_of_any T f s0 (by rw [h0n]; exact hany)]
+    rw [slotMsgs_of_any C T f s0 (by rw [h0n]; exact hany)]
     exact hpart
-  · have hany' : f.any (fun m => m.num == s0.num) = false := by rw [h0n]; simpa using hany
-    obtain ⟨hd, hnil⟩ := slotMsgs_default T f s0 h0k hany'
+  · have hany' : f.any (fun m => (C.num m) == s0.num) = false := by rw [h0n]; simpa using hany
+    obtain ⟨hd, hnil⟩ := slotMsgs_default C T f s0 h0k hany'
     rw [if_neg hany, hd, h0n]
     rw [hnil] at hpart
     simp only [List.flatten_cons, List.nil_append, List.cons_append] at hpart ⊢
     exact List.Perm.cons _ hpart
 
-theorem toFIT_perm_emission (T : FileType) (f : File) : (toFIT T f).Perm (emission T f) := by
+theorem toFIT_perm_emission (T : FileType) (f : List μ) : (toFIT C T f).Perm (emission C T f) := by
   unfold toFIT emission
-  have : (groups T f).flatten = ((groups T f).take T.sortFrom).flatten ++ ((groups T f).drop T.sortFrom).flatten := by
+  have : (groups C T f).flatten = ((groups C T f).take T.sortFrom).flatten ++ ((groups C T f).drop T.sortFrom).flatten := by
     rw [← List.flatten_append, List.take_append_drop]
   rw [this]
-  exact List.Perm.append_left _ (sortStable_perm _)
+  exact List.Perm.append_left _ (sortStable_perm C _)
 
 
 end
@@ -481,38 +482,38 @@ open Generated
 
 
 /-- the groups after the three prefix groups -/
-def restGroups (T : FileType) (f : File) : List (List Msg) := (groups T f).drop 3
+def restGroups (T : FileType) (f : List μ) : List (List μ) := (groups C T f).drop 3
 
 /-- `toFIT` of a table with the prefix shape: three prefix groups, then the rest, of which a suffix is sorted -/
-theorem toFIT_split {T : FileType} (h : TableOK T) (f : File) :
+theorem toFIT_split {T : FileType} (h : TableOK T) (f : List μ) :
     ∃ s0 s1 s2 rest, T.slots = s0 :: s1 :: s2 :: rest ∧
-    toFIT T f = slotMsgs T f s0 ++ (slotMsgs T f s1 ++ (slotMsgs T f s2 ++
-      (((restGroups T f).take (T.sortFrom - 3)).flatten ++ sortStable ((restGroups T f).drop (T.sortFrom - 3)).flatten))) := by
+    toFIT C T f = slotMsgs C T f s0 ++ (slotMsgs C T f s1 ++ (slotMsgs C T f s2 ++
+      (((restGroups C T f).take (T.sortFrom - 3)).flatten ++ sortStable C ((restGroups C T f).drop (T.sortFrom - 3)).flatten))) := by
   obtain ⟨s0, s1, s2, rest, hsl, _⟩ := tableOK_slots h
   refine ⟨s0, s1, s2, rest, hsl, ?_⟩
   obtain ⟨k, hk⟩ : ∃ k, T.sortFrom = k + 3 := ⟨T.sortFrom - 3, by have := h.2.2.2.2.1; omega⟩
   unfold toFIT restGroups
-  have hg : groups T f = slotMsgs T f s0 :: slotMsgs T f s1 :: slotMsgs T f s2 :: (rest.map (slotMsgs T f) ++ [unrelated T f]) := by
+  have hg : groups C T f = slotMsgs C T f s0 :: slotMsgs C T f s1 :: slotMsgs C T f s2 :: (rest.map (slotMsgs C T f) ++ [unrelated C T f]) := by
     unfold groups; rw [hsl]; rfl
   rw [hg, hk]
   simp [List.take_succ_cons, List.drop_succ_cons]
 
-theorem mem_restGroups {T : FileType} (h : TableOK T) (f : File) (m : Msg) (hm : m ∈ (restGroups T f).flatten) :
-    isPrefixNum m.num = false := by
+theorem mem_restGroups {T : FileType} (h : TableOK T) (f : List μ) (m : μ) (hm : m ∈ (restGroups C T f).flatten) :
+    isPrefixNum (C.num m) = false := by
   obtain ⟨s0, s1, s2, rest, hsl, h0n, _, h1n, _, h2n, _, hrest⟩ := tableOK_slots h
   have hnd : (T.slots.map (·.num)).Nodup := h.1
   rw [hsl] at hnd
   simp only [List.map_cons, List.nodup_cons, List.mem_cons, List.mem_map, not_or, not_exists, not_and] at hnd
   obtain ⟨⟨n01, n02, n0r⟩, ⟨n12, n1r⟩, n2r, _⟩ := hnd
-  have hg : restGroups T f = rest.map (slotMsgs T f) ++ [unrelated T f] := by
+  have hg : restGroups C T f = rest.map (slotMsgs C T f) ++ [unrelated C T f] := by
     unfold restGroups groups; rw [hsl]; rfl
   rw [hg, List.flatten_append, List.mem_append] at hm
-  have key : m.num ≠ s0.num ∧ m.num ≠ s1.num ∧ m.num ≠ s2.num := by
+  have hkey : (C.num m) ≠ s0.num ∧ (C.num m) ≠ s1.num ∧ (C.num m) ≠ s2.num := by
     rcases hm with hm | hm
     · obtain ⟨l, hl, hml⟩ := List.mem_flatten.mp hm
       obtain ⟨s, hs, rfl⟩ := List.mem_map.mp hl
-      rw [slotMsgs_of_not_value T f s (hrest s hs)] at hml
-      have hn : m.num = s.num := by simpa using (List.mem_filter.mp hml).2
+      rw [slotMsgs_of_not_value C T f s (hrest s hs)] at hml
+      have hn : (C.num m) = s.num := by simpa using (List.mem_filter.mp hml).2
       rw [hn]
       exact ⟨fun e => n0r s hs e, fun e => n1r s hs e, fun e => n2r s hs e⟩
     · simp only [List.flatten_cons, List.flatten_nil, List.append_nil] at hm
@@ -520,8 +521,8 @@ theorem mem_restGroups {T : FileType} (h : TableOK T) (f : File) (m : Msg) (hm :
       rw [slotOf_isNone, hsl] at hnone
       simp only [inSlots, List.any_cons, Bool.not_or, Bool.and_eq_true, Bool.not_eq_true', beq_eq_false_iff_ne] at hnone
       exact ⟨fun e => hnone.1 e.symm, fun e => hnone.2.1 e.symm, fun e => hnone.2.2.1 e.symm⟩
-  rw [h0n, h1n, h2n] at key
-  simp [isPrefixNum, key.1, key.2.1, key.2.2]
+  rw [h0n, h1n, h2n] at hkey
+  simp [isPrefixNum, hkey.1, hkey.2.1, hkey.2.2]
 
 theorem isSingle_fileId {T : FileType} (h : TableOK T) : isSingle T mesgNumFileId = true := by
   obtain ⟨s0, s1, s2, rest, hsl, h0n, h0k, _⟩ := tableOK_slots h
@@ -535,49 +536,49 @@ end
 section
 open Generated
 
-def hasFileId (msgs : List Msg) : Bool := msgs.any (fun m => m.num == mesgNumFileId)
+def hasFileId (msgs : List μ) : Bool := msgs.any (fun m => (C.num m) == mesgNumFileId)
 
 /-- shape of the output: exactly one file_id, the developer_data_id messages, the field_description messages, the rest -/
-def OutputShape (T : FileType) (msgs : List Msg) (fid : Msg) (rest : List Msg) : Prop :=
-  toFIT T (build T msgs) =
-    fid :: ((build T msgs).filter (fun m => m.num == mesgNumDeveloperDataId) ++
-      ((build T msgs).filter (fun m => m.num == mesgNumFieldDescription) ++ rest))
+def OutputShape (T : FileType) (msgs : List μ) (fid : μ) (rest : List μ) : Prop :=
+  toFIT C T (build C T msgs) =
+    fid :: ((build C T msgs).filter (fun m => (C.num m) == mesgNumDeveloperDataId) ++
+      ((build C T msgs).filter (fun m => (C.num m) == mesgNumFieldDescription) ++ rest))
 
 /-- the part of the emission that follows the prefix (typed slots in table order, each in arrival order, then the
 unrelated messages in arrival order) -/
-def restEmission (T : FileType) (msgs : List Msg) : List Msg := (restGroups T (build T msgs)).flatten
+def restEmission (T : FileType) (msgs : List μ) : List μ := (restGroups C T (build C T msgs)).flatten
 
-theorem output_shape {T : FileType} (hok : TableOK T) (msgs : List Msg) :
-    ∃ fid, fid.num = mesgNumFileId ∧ OutputShape T msgs fid
-      (((restGroups T (build T msgs)).take (T.sortFrom - 3)).flatten ++
-        sortStable ((restGroups T (build T msgs)).drop (T.sortFrom - 3)).flatten) := by
-  obtain ⟨s0, s1, s2, rest, hsl, hsplit⟩ := toFIT_split hok (build T msgs)
+theorem output_shape (hC : C.Lawful) {T : FileType} (hok : TableOK T) (msgs : List μ) :
+    ∃ fid, (C.num fid) = mesgNumFileId ∧ OutputShape C T msgs fid
+      (((restGroups C T (build C T msgs)).take (T.sortFrom - 3)).flatten ++
+        sortStable C ((restGroups C T (build C T msgs)).drop (T.sortFrom - 3)).flatten) := by
+  obtain ⟨s0, s1, s2, rest, hsl, hsplit⟩ := toFIT_split C hok (build C T msgs)
   obtain ⟨s0', s1', s2', rest', hsl', h0n, h0k, h1n, h1k, h2n, h2k, _⟩ := tableOK_slots hok
   rw [hsl] at hsl'
   obtain ⟨rfl, rfl, rfl, rfl⟩ : s0 = s0' ∧ s1 = s1' ∧ s2 = s2' ∧ rest = rest' := by
     simp only [List.cons.injEq] at hsl'; exact ⟨hsl'.1, hsl'.2.1, hsl'.2.2.1, hsl'.2.2.2⟩
-  have e1 : slotMsgs T (build T msgs) s1 = (build T msgs).filter (fun m => m.num == mesgNumDeveloperDataId) := by
-    rw [slotMsgs_of_not_value _ _ _ (by rw [h1k]; decide), h1n]
-  have e2 : slotMsgs T (build T msgs) s2 = (build T msgs).filter (fun m => m.num == mesgNumFieldDescription) := by
-    rw [slotMsgs_of_not_value _ _ _ (by rw [h2k]; decide), h2n]
+  have e1 : slotMsgs C T (build C T msgs) s1 = (build C T msgs).filter (fun m => (C.num m) == mesgNumDeveloperDataId) := by
+    rw [slotMsgs_of_not_value C _ _ _ (by rw [h1k]; decide), h1n]
+  have e2 : slotMsgs C T (build C T msgs) s2 = (build C T msgs).filter (fun m => (C.num m) == mesgNumFieldDescription) := by
+    rw [slotMsgs_of_not_value C _ _ _ (by rw [h2k]; decide), h2n]
   -- the file_id group has exactly one element
-  have e0 : ∃ fid, fid.num = mesgNumFileId ∧ slotMsgs T (build T msgs) s0 = [fid] := by
-    by_cases hany : (build T msgs).any (fun m => m.num == s0.num) = true
-    · rw [slotMsgs_of_any _ _ _ hany]
-      have hle := keepLast_single_le_one T mesgNumFileId (isSingle_fileId hok) (msgs.map (normT T))
-      rw [← build_eq_keepLast hok, ← h0n] at hle
+  have e0 : ∃ fid, (C.num fid) = mesgNumFileId ∧ slotMsgs C T (build C T msgs) s0 = [fid] := by
+    by_cases hany : (build C T msgs).any (fun m => (C.num m) == s0.num) = true
+    · rw [slotMsgs_of_any C _ _ _ hany]
+      have hle := keepLast_single_le_one C T mesgNumFileId (isSingle_fileId hok) (msgs.map (C.norm T))
+      rw [← build_eq_keepLast C hok, ← h0n] at hle
       obtain ⟨a, ha, hp⟩ := List.any_eq_true.mp hany
-      have hmem : a ∈ (build T msgs).filter (fun m => m.num == s0.num) := List.mem_filter.mpr ⟨ha, hp⟩
-      match hl : (build T msgs).filter (fun m => m.num == s0.num) with
+      have hmem : a ∈ (build C T msgs).filter (fun m => (C.num m) == s0.num) := List.mem_filter.mpr ⟨ha, hp⟩
+      match hl : (build C T msgs).filter (fun m => (C.num m) == s0.num) with
       | [] => rw [hl] at hmem; cases hmem
       | [x] =>
-        refine ⟨x, ?_, hl⟩
-        have : x ∈ (build T msgs).filter (fun m => m.num == s0.num) := by rw [hl]; simp
+        refine ⟨x, ?_, rfl⟩
+        have : x ∈ (build C T msgs).filter (fun m => (C.num m) == s0.num) := by rw [hl]; simp
         rw [← h0n]; simpa using (List.mem_filter.mp this).2
       | _ :: _ :: _ => rw [hl] at hle; simp at hle
-    · have hany' : (build T msgs).any (fun m => m.num == s0.num) = false := by simpa using hany
-      obtain ⟨hd, _⟩ := slotMsgs_default T _ s0 h0k hany'
-      exact ⟨defaultMsg T s0.num, h0n, hd⟩
+    · have hany' : (build C T msgs).any (fun m => (C.num m) == s0.num) = false := by simpa using hany
+      obtain ⟨hd, _⟩ := slotMsgs_default C T _ s0 h0k hany'
+      exact ⟨C.dflt T s0.num, by rw [hC.dflt_num, h0n], hd⟩
   obtain ⟨fid, hfn, hf⟩ := e0
   refine ⟨fid, hfn, ?_⟩
   unfold OutputShape
@@ -586,4 +587,80 @@ theorem output_shape {T : FileType} (hok : TableOK T) (msgs : List Msg) :
 
 
 end
+/-! ### the statements of C14 (first half), for any carrier -/
+section
+open Generated
+
+theorem hasFileId_keepLast (hC : C.Lawful) (T : FileType) (msgs : List μ) :
+    (keepLast C T (msgs.map (C.norm T))).any (fun m => C.num m == mesgNumFileId) = hasFileId C msgs := by
+  rw [keepLast_any, List.any_map]
+  simp [hasFileId, Function.comp_def, hC.norm_num]
+
+theorem build_keeps_last {T : FileType} (hok : TableOK T) (msgs : List μ) :
+    build C T msgs = keepLastDecl C T (msgs.map (C.norm T)) := by
+  rw [keepLastDecl_eq C hok]; exact build_eq_keepLast C hok msgs
+
+theorem conservation (hC : C.Lawful) {T : FileType} (hok : TableOK T) (msgs : List μ) (hfid : hasFileId C msgs = true) :
+    (toFIT C T (build C T msgs)).Perm (keepLastDecl C T (msgs.map (C.norm T))) := by
+  rw [keepLastDecl_eq C hok]
+  have h1 := (toFIT_perm_emission C T (build C T msgs)).trans (emission_perm C hok (build C T msgs))
+  rw [build_eq_keepLast C hok] at h1 ⊢
+  rw [hasFileId_keepLast C hC, hfid] at h1
+  simpa using h1
+
+theorem conservation_no_file_id (hC : C.Lawful) {T : FileType} (hok : TableOK T) (msgs : List μ)
+    (hfid : hasFileId C msgs = false) :
+    (toFIT C T (build C T msgs)).Perm (C.dflt T mesgNumFileId :: keepLastDecl C T (msgs.map (C.norm T))) := by
+  rw [keepLastDecl_eq C hok]
+  have h1 := (toFIT_perm_emission C T (build C T msgs)).trans (emission_perm C hok (build C T msgs))
+  rw [build_eq_keepLast C hok] at h1 ⊢
+  rw [hasFileId_keepLast C hC, hfid] at h1
+  simpa using h1
+
+theorem prefix_order (hC : C.Lawful) {T : FileType} (hok : TableOK T) (msgs : List μ) :
+    ∃ fid rest, C.num fid = mesgNumFileId ∧ OutputShape C T msgs fid rest ∧ ∀ m ∈ rest, isPrefixNum (C.num m) = false := by
+  obtain ⟨fid, hfn, hshape⟩ := output_shape C hC hok msgs
+  refine ⟨fid, _, hfn, hshape, ?_⟩
+  intro m hm
+  apply mem_restGroups C hok (build C T msgs) m
+  have hperm : (((restGroups C T (build C T msgs)).take (T.sortFrom - 3)).flatten ++
+      sortStable C ((restGroups C T (build C T msgs)).drop (T.sortFrom - 3)).flatten).Perm
+        (restGroups C T (build C T msgs)).flatten := by
+    have : (restGroups C T (build C T msgs)).flatten = ((restGroups C T (build C T msgs)).take (T.sortFrom - 3)).flatten ++
+        ((restGroups C T (build C T msgs)).drop (T.sortFrom - 3)).flatten := by
+      rw [← List.flatten_append, List.take_append_drop]
+    rw [this]
+    exact List.Perm.append_left _ (sortStable_perm C _)
+  exact hperm.mem_iff.mp hm
+
+theorem timestampless_first (a c : List μ) (b : μ) (hs : Sorted C (a ++ b :: c)) (hb : C.key b = none) :
+    ∀ x ∈ a, C.key x = none := by
+  intro x hx
+  have := (List.pairwise_append.mp hs).2.2 x hx b (List.mem_cons_self)
+  unfold le at this
+  rw [hb] at this
+  exact keyLe_none_right this
+
+theorem sorted_stable_of_sortFrom3 (hC : C.Lawful) {T : FileType} (hok : TableOK T) (h3 : T.sortFrom = 3) (msgs : List μ) :
+    ∃ fid, OutputShape C T msgs fid (sortStable C (restEmission C T msgs)) ∧
+      Sorted C (sortStable C (restEmission C T msgs)) ∧
+      (∀ k, withKey C k (sortStable C (restEmission C T msgs)) = withKey C k (restEmission C T msgs)) := by
+  obtain ⟨fid, _, hshape⟩ := output_shape C hC hok msgs
+  rw [h3] at hshape
+  simp only [Nat.sub_self, List.take_zero, List.flatten_nil, List.nil_append, List.drop_zero] at hshape
+  exact ⟨fid, hshape, sortStable_sorted C _, fun k => sortStable_withKey C k _⟩
+
+end
+
+end G
+
+/-! ### the abstract messages -/
+
+theorem normT_num (T : FileType) (m : Msg) : (normT T m).num = m.num := by
+  unfold normT; split <;> rfl
+
+export G (TableOK prefixOK)
+
+theorem absC_lawful : absC.Lawful := ⟨normT_num, fun _ _ => rfl⟩
+
 end Fit.FileDef
